@@ -304,7 +304,7 @@ func (c *Ctx) DispatchOrder() []core.Ob {
 		if f.Parent() != nil {
 			continue
 		}
-		if len(dynamicCallsWithClosures(f)) > 0 {
+		if len(dynamicCallsWithClosures(f)) > 0 || len(c.handlerRunners(f)) > 0 {
 			fn = f
 			nd++
 		}
@@ -333,6 +333,18 @@ func (c *Ctx) DispatchOrder() []core.Ob {
 		return g != nil && g.Parent() == fn && len(dynamicCallsWithClosures(g)) > 0
 	}) {
 		handlerCalls = append(handlerCalls, ci)
+	}
+	// a helper of the package that runs a slice of handlers (runHandlers(list, p)): its calls in the
+	// dispatcher and the handler calls inside it are handler calls
+	runners := c.handlerRunners(fn)
+	for _, ci := range callsIn(fn, func(n string, cc *ssa.CallCommon) bool {
+		g := cc.StaticCallee()
+		return g != nil && runners[core.Origin(g)]
+	}) {
+		handlerCalls = append(handlerCalls, ci)
+	}
+	for g := range runners {
+		handlerCalls = append(handlerCalls, dynamicCallsWithClosures(g)...)
 	}
 	for _, ci := range handlerCalls {
 		k++
@@ -442,7 +454,33 @@ func errCheckedThenReturn(call *ssa.Call) bool {
 	if errv == nil || errv.Referrers() == nil {
 		return false
 	}
+	// the error may be merged with the error of the alternative branch first
+	// (if a { err = f() } else { err = g() }; if err != nil { return err }): then no call of the
+	// module lies between this call and the test
+	vals := []ssa.Value{errv}
 	for _, r := range *errv.Referrers() {
+		if phi, ok := r.(*ssa.Phi); ok && phi.Referrers() != nil && len(call.Block().Succs) == 1 && call.Block().Succs[0] == phi.Block() {
+			clean := true
+			after := false
+			for _, in := range call.Block().Instrs {
+				if in == ssa.Instruction(call) {
+					after = true
+					continue
+				}
+				if _, isCall := in.(ssa.CallInstruction); after && isCall {
+					clean = false
+				}
+			}
+			if clean {
+				vals = append(vals, phi)
+			}
+		}
+	}
+	var refs []ssa.Instruction
+	for _, v := range vals {
+		refs = append(refs, *v.Referrers()...)
+	}
+	for _, r := range refs {
 		cmp, ok := r.(*ssa.BinOp)
 		if !ok || (cmp.Op != token.NEQ && cmp.Op != token.EQL) {
 			continue
@@ -980,7 +1018,7 @@ func (c *Ctx) RegionOrder() []core.Ob {
 						continue
 					}
 					for _, s := range b.Succs {
-						if !lp.body[s] {
+						if !lp.body[s] && !failsOnly(s) {
 							l.Status, l.Got = core.Violated, "a block inside a scan loop jumps out of the loop (break/return): later entries are skipped"
 						}
 					}
@@ -1468,7 +1506,19 @@ func (c *Ctx) RegionOrigin() []core.Ob {
 	walk(seeks[0].Common().Args[0], seekFrame)
 	isRootRecv := func(v ssa.Value, fr *iframe) bool {
 		rv, rf := fr.resolve(v)
-		return rf != nil && rf.parent == nil && rv == ssa.Value(ws.Params[0])
+		if rf == nil || rf.parent != nil {
+			return false
+		}
+		if rv == ssa.Value(ws.Params[0]) {
+			return true
+		}
+		// the receiver lives in a cell because a closure captures it
+		if ld, ok := rv.(*ssa.UnOp); ok && ld.Op == token.MUL {
+			if al, ok := ld.X.(*ssa.Alloc); ok && spilledParam(al) == ssa.Value(ws.Params[0]) {
+				return true
+			}
+		}
+		return false
 	}
 	isRootParam := func(v ssa.Value, fr *iframe, k int) bool {
 		rv, rf := fr.resolve(stripConv(v))
@@ -1729,7 +1779,7 @@ func (c *Ctx) regionCountFits(ws *ssa.Function) []core.Ob {
 		or *ssa.BinOp
 	}
 	var deferred []paramSite
-	for _, fn := range c.withPkgCallees(ws, 2) {
+	for _, fn := range c.withPkgCallees(ws, 3) {
 		var sites []*ssa.BinOp
 		for _, b := range fn.Blocks {
 			for _, in := range b.Instrs {
@@ -1788,6 +1838,55 @@ func (c *Ctx) regionCountFits(ws *ssa.Function) []core.Ob {
 			}
 		})
 	}
+	// the bound on a parameter is established by the callers (possibly through another helper)
+	var atCallers func(fn *ssa.Function, idx int, depth int) (nCalls int)
+	atCallers = func(fn *ssa.Function, idx int, depth int) int {
+		nCalls := 0
+		for _, caller := range c.withPkgCallees(ws, 3) {
+			var calls []ssa.CallInstruction
+			for _, ci := range callsIn(caller, func(_ string, cc *ssa.CallCommon) bool { return cc.StaticCallee() == fn }) {
+				calls = append(calls, ci)
+			}
+			if len(calls) == 0 {
+				continue
+			}
+			type pending struct {
+				fn  *ssa.Function
+				idx int
+			}
+			var more []pending
+			t.Probe(caller, func(in ssa.Instruction, eval func(ssa.Value) AV, _ func(string) (AV, bool)) {
+				for _, ci := range calls {
+					if in != ssa.Instruction(ci) || idx < 0 || idx >= len(ci.Common().Args) {
+						continue
+					}
+					nCalls++
+					arg := ci.Common().Args[idx]
+					av := eval(arg)
+					if all := av.all(); all == nil || all.Hi == nil || all.Hi.Cmp(bi(255)) > 0 {
+						if p, isParam := stripConv(arg).(*ssa.Parameter); isParam && caller != ws && depth < 3 {
+							for j, q := range caller.Params {
+								if q == p {
+									more = append(more, pending{caller, j})
+								}
+							}
+							continue
+						}
+						o.Status, o.Pos = core.Violated, c.P.Pos(ci.Pos())
+						o.Got = "the count handed to " + fn.Name() + " (on its way into the low byte of a location word) is only known to be " + av.String() + " at this call"
+					}
+				}
+			})
+			seenP := map[pending]bool{}
+			for _, m := range more {
+				if !seenP[m] {
+					seenP[m] = true
+					atCallers(m.fn, m.idx, depth+1)
+				}
+			}
+		}
+		return nCalls
+	}
 	for _, ps := range deferred {
 		idx := -1
 		for i, q := range ps.fn.Params {
@@ -1795,30 +1894,7 @@ func (c *Ctx) regionCountFits(ws *ssa.Function) []core.Ob {
 				idx = i
 			}
 		}
-		nCalls := 0
-		for _, caller := range c.withPkgCallees(ws, 2) {
-			var calls []ssa.CallInstruction
-			for _, ci := range callsIn(caller, func(_ string, cc *ssa.CallCommon) bool { return cc.StaticCallee() == ps.fn }) {
-				calls = append(calls, ci)
-			}
-			if len(calls) == 0 {
-				continue
-			}
-			t.Probe(caller, func(in ssa.Instruction, eval func(ssa.Value) AV, _ func(string) (AV, bool)) {
-				for _, ci := range calls {
-					if in != ssa.Instruction(ci) || idx < 0 || idx >= len(ci.Common().Args) {
-						continue
-					}
-					nCalls++
-					av := eval(ci.Common().Args[idx])
-					if all := av.all(); all == nil || all.Hi == nil || all.Hi.Cmp(bi(255)) > 0 {
-						o.Status, o.Pos = core.Violated, c.P.Pos(ci.Pos())
-						o.Got = "the count handed to " + ps.fn.Name() + " (which packs it into the low byte) is only known to be " + av.String() + " at this call"
-					}
-				}
-			})
-		}
-		if nCalls == 0 {
+		if atCallers(ps.fn, idx, 0) == 0 {
 			o.Status, o.Got = core.Violated, "the helper "+ps.fn.Name()+" packs its parameter but no call of it was found on WriteSector's paths"
 		}
 	}
@@ -1826,4 +1902,31 @@ func (c *Ctx) regionCountFits(ws *ssa.Function) []core.Ob {
 		o.Status, o.Got = core.Violated, "no (offset << 8) | count packing found in WriteSector or its helpers"
 	}
 	return []core.Ob{o}
+}
+
+// failsOnly: the block ends the function with a non-nil error (the whole operation fails:
+// nothing is built from a partial scan).
+func failsOnly(b *ssa.BasicBlock) bool {
+	ret, ok := b.Instrs[len(b.Instrs)-1].(*ssa.Return)
+	if !ok || len(ret.Results) == 0 {
+		return false
+	}
+	last := ret.Results[len(ret.Results)-1]
+	return isErrorType(last.Type()) && errKnownNonNil(last, b)
+}
+
+// handlerRunners: the functions of f's package that f calls statically and that call function
+// values (run the handlers handed to them).
+func (c *Ctx) handlerRunners(f *ssa.Function) map[*ssa.Function]bool {
+	out := map[*ssa.Function]bool{}
+	for _, ci := range callsIn(f, func(_ string, cc *ssa.CallCommon) bool { return cc.StaticCallee() != nil }) {
+		g := core.Origin(ci.Common().StaticCallee())
+		if g == f || g.Parent() != nil || core.FnPkg(g) == nil || core.FnPkg(f) == nil || core.FnPkg(g).Pkg != core.FnPkg(f).Pkg {
+			continue
+		}
+		if len(dynamicCallsWithClosures(g)) > 0 {
+			out[g] = true
+		}
+	}
+	return out
 }
